@@ -10,7 +10,7 @@ def run(prop, tier):
     t0 = time.time()
     p = 2 if tier == "quick" else 3
     jobs = []
-    bbs = [(1, 1, 2), (1, 2, 2), (2, 1, 2)] + ([(2, 2, 3), (1, 2, 3)] if tier == "thorough" else [])
+    bbs = [(1, 1, 2), (1, 2, 2), (2, 1, 2)] + ([(2, 2, 2), (1, 2, 3)] if tier == "thorough" else [])
     for bb in bbs:
         jobs.append(dict(src=SRC, args=["bb", "-p", p if sum(bb[:2]) < 4 else 2, "-s", 1, "--"] + list(bb)))
     for w in (2, 3):
@@ -18,6 +18,7 @@ def run(prop, tier):
         jobs.append(dict(src=SRC, args=["unlocked", "-p", p, "-s", 1, "--", w]))
         jobs.append(dict(src=SRC, args=["unlocked", "-p", p, "-s", 1, "--", w, "i"]))
     jobs.append(dict(src=SRC, args=["held", "-p", p + 1, "-s", 1]))
+    jobs.append(dict(src=SRC, args=["trypub", "-p", p + 1, "-s", 1]))
     acc = mcsched.run_jobs(prop, tier, jobs)
     extra = {}
     if tier == "thorough" and not acc.viols:
